@@ -126,7 +126,7 @@ class LoopSpec:
         return self.cfg.clauses(path, self.inv, self.env(path))
 
     def check_inv(self, path, tag):
-        for i, cl in enumerate(self.clauses(path)):
+        for i, cl in enumerate(self.cfg.clauses(path, self.inv, self.env(path), oblige=True)):
             path.oblige(self.name(f'{tag}#{i}'), tag, cl)
 
     def assume_inv(self, path):
@@ -245,7 +245,7 @@ class Config:
             for fr in reversed(path.scope):
                 env.update(path.obj(fr).vars)
             env['old'] = OldView(path.entry_env, 'old')
-            for i, cl in enumerate(self.clauses(path, inv, env)):
+            for i, cl in enumerate(self.clauses(path, inv, env, oblige=True)):
                 path.oblige(self.obl_name(path, 'await-guarantee', f'L{node.lineno}#{i}'), 'await-guarantee', cl)
             self.havoc_modifies(path, self.top, path.entry_env, 'await')
             path.abstraction_used = True
@@ -542,23 +542,41 @@ class Config:
                 raise Unsupported(f'clause {f.qualname} needs {n!r} which is not available here')
         return args
 
-    def clauses(self, path, fn, env):
+    def clauses(self, path, fn, env, oblige=False):
         """truth values of the clauses of fn, evaluated *progressively*: inside a list display
         clause k is evaluated knowing clauses < k (they are conjuncts: for an assumption this is
         the same formula, for obligations it is sequential conjunction).  The temporary
-        hypotheses are removed again before returning."""
+        hypotheses are removed again before returning.
+
+        oblige=True (the caller states every returned clause as an obligation, in order): if the
+        clauses evaluated so far are jointly inconsistent with the path condition (a case split
+        while evaluating clause k finds no feasible side), one of them is false in every state of
+        this path.  They are returned (so that they are stated and refuted) and the path ends after
+        the last of them has been stated -- it must not vanish as "infeasible" together with the
+        obligations that were never stated."""
         if fn is None:
             return []
         saved = path.prog_temps
+        saved_vals = path.prog_vals
         path.prog_temps = []
+        path.prog_vals = []
+        dead = False
         try:
             out = self.as_clause_list(path, self.spec_eval(path, fn, env))
+        except Infeasible:
+            if not oblige or not path.prog_temps:
+                raise
+            out = [path.truth(v) for v in path.prog_vals]
+            dead = True
         finally:
             temps = path.prog_temps
             path.prog_temps = saved
+            path.prog_vals = saved_vals
             if temps:
                 ids = {id(t) for t in temps}
                 path.pc = [p for p in path.pc if id(p) not in ids]
+        if dead:
+            path.die_after = len(out)
         return out
 
     def as_clause_list(self, path, v):
@@ -645,7 +663,7 @@ class Config:
         path.loop_counters['call'] = n
         self.ensure_ghost(path, c2)
         if c2.requires is not None:
-            for i, cl in enumerate(self.clauses(path, c2.requires, env)):
+            for i, cl in enumerate(self.clauses(path, c2.requires, env, oblige=True)):
                 path.oblige(self.obl_name(path, 'callee-pre', f'{c2.key.split(":")[1]}#{i}'), 'callee-pre', cl)
         snap = f'call{n}'
         path.snapshot(snap)
@@ -929,7 +947,7 @@ def run_path(cfg, path, top, func, is_lemma):
             path.oblige(cfg.obl_name(path, 'exc', cls.__name__), 'exc', False, info={'exception': cls.__name__, 'at': path.cur_loc})
         else:
             if matched[1] is not None:
-                for i, cl in enumerate(cfg.clauses(path, matched[1], post_env)):
+                for i, cl in enumerate(cfg.clauses(path, matched[1], post_env, oblige=True)):
                     path.oblige(cfg.obl_name(path, f'raises-{matched[0].__name__}', i), 'post', cl)
         cfg.check_frame(path, 'exc')
         return ('exc', cls.__name__)
@@ -938,7 +956,7 @@ def run_path(cfg, path, top, func, is_lemma):
     post_env['res'] = result
     if top.ensures is not None:
         names = top.ensures_names if getattr(top, 'ensures_names', None) else None
-        for i, cl in enumerate(cfg.clauses(path, top.ensures, post_env)):
+        for i, cl in enumerate(cfg.clauses(path, top.ensures, post_env, oblige=True)):
             path.oblige(cfg.obl_name(path, 'post', names[i] if names and i < len(names) else i), 'post', cl)
     extra = getattr(top, 'extra', {}) or {}
     if extra.get('result') is not None:
